@@ -250,3 +250,194 @@ package pipeline
 //@ func (*SliceMap).Copy
 //@   pure
 //@   ensures isnil(result) || fresh(result)
+
+// ---------------------------------------------------------------------------
+// C02 / C01 / C04: stream (queue of the events of one source and stream).
+//
+// stream.mu guards the queue and the attach / detach state.
+
+//@ monitor stream.mu
+//@   self s
+//@   cond cond
+//@   protects len, currentSeq, awaySeq, isDetaching, isAttached, first, last, blockTime, commitSeq.v
+//@   invariant s.isDetaching ==> s.isAttached
+
+// put: sequence ids are handed out strictly increasing in arrival order; an
+// empty stream gets the event as head, signals a blocked owner, and - when no
+// processor owns it - is charged (queued for a processor).
+
+//@ func (*stream).put
+//@   ghost ncharged int = 0
+//@   ghost nsignal int = 0
+//@   ghost wasEmpty bool = false
+//@   ghost wasAttached bool = false
+//@   ghost seq0 int = 0
+//@   requires event != nil
+//@   ensures !held(s.mu)
+//@   ensures result == seq0 + 1 || seq0 == 18446744073709551615
+//@   ensures wasEmpty ==> nsignal == 1
+//@   ensures wasEmpty && !wasAttached ==> ncharged == 1
+//@   ensures !(wasEmpty && !wasAttached) ==> ncharged == 0
+//@   setat "s.len++" wasEmpty := s.first == nil
+//@   setat "s.currentSeq++" seq0 := s.currentSeq
+//@   setat "seqID := s.currentSeq" wasAttached := s.isAttached
+//@   assert at "s.mu.Unlock()" event.SeqID == s.currentSeq && event.stream == s && s.first != nil && s.last == event
+//@   callee makeCharged(st)
+//@     requires st == s
+//@     preserves stream, Event
+//@     set ncharged := ncharged + 1
+//@   callee Signal()
+//@     pure
+//@     set nsignal := nsignal + 1
+
+// get (lock held by the caller): FIFO head, and the taken event becomes the stream's away event.
+
+//@ func (*stream).get
+//@   requires held(s.mu)
+//@   option allow-exit yes
+//@   modifies s.first, s.last, s.awaySeq, s.len, s.first.stage
+//@   ensures held(s.mu)
+//@   ensures result == old(s.first)
+//@   ensures result != nil ==> s.awaySeq == result.SeqID
+//@   ensures old(s.first) != nil && old(s.first) != old(s.last) ==> s.first == old(s.first.next)
+//@   ensures s.isAttached == old(s.isAttached) && s.isDetaching == old(s.isDetaching)
+
+// tryDetach (lock held): the stream is released for another processor only when
+// its last taken event is committed (awaySeq == commitSeq); a released stream
+// that still has events is charged again.
+
+//@ func (*stream).tryDetach
+//@   ghost ncharged int = 0
+//@   requires held(s.mu)
+//@   ensures held(s.mu)
+//@   ensures old(s.isAttached) && !s.isAttached ==> s.awaySeq == s.commitSeq.v
+//@   ensures s.awaySeq != s.commitSeq.v ==> s.isAttached == old(s.isAttached) && s.isDetaching == old(s.isDetaching)
+//@   ensures s.awaySeq == s.commitSeq.v ==> !s.isAttached && !s.isDetaching
+//@   ensures s.awaySeq != s.commitSeq.v ==> ncharged == 0
+//@   ensures s.awaySeq == s.commitSeq.v ==> (ncharged == 1) == (s.first != nil)
+//@   ensures s.awaySeq == old(s.awaySeq) && s.commitSeq.v == old(s.commitSeq.v)
+//@   ensures s.first == old(s.first) && s.last == old(s.last)
+//@   callee makeCharged(st)
+//@     requires st == s
+//@     preserves stream, Event
+//@     set ncharged := ncharged + 1
+
+// commit: the stream's commit sequence never decreases; a detaching stream is released here.
+
+//@ func (*stream).commit
+//@   ghost c0 int = 0
+//@   requires event != nil
+//@   ensures !held(s.mu)
+//@   assert at "s.commitSeq.Store(event.SeqID)" event.SeqID >= c0
+//@   callee Load() (r)
+//@     pure
+//@     set c0 := r
+//@   callee tryDetach()
+//@     requires true
+
+// attach / leave / blockGet / instantGet: their Panicf guards state the ownership
+// protocol; they are proved unreachable under the stated preconditions.
+
+//@ func (*stream).leave
+//@   option allow-exit yes
+//@   requires held(s.mu)
+//@   ensures held(s.mu)
+//@   ensures s.isDetaching ==> s.isAttached
+
+//@ func (*stream).instantGet
+//@   option allow-exit yes
+//@   ensures !held(s.mu)
+//@   callee get()
+//@     requires s.isAttached
+
+// ---------------------------------------------------------------------------
+// C04 / C05: event pools.
+//
+// Heartbeats: in every iteration, if readers are waiting and capacity is free,
+// the waiters are woken (one Broadcast).  back() wakes waiters after releasing
+// its unit.
+
+//@ func (*eventPool).wakeupWaiters
+//@   ghost nb int = 0
+//@   setat "time.Sleep(p.wakeupInterval)" nb := 0
+//@   loop 1 iter-ensures waiters > 0 && eventsAvailable ==> nb == 1
+//@   loop 1 iter-ensures !(waiters > 0 && eventsAvailable) ==> nb == 0
+//@   callee Broadcast()
+//@     pure
+//@     set nb := nb + 1
+//@   callee Sleep(d)
+//@     pure
+
+//@ func (*lowMemoryEventPool).eventsAvailable
+//@   pure
+//@   ensures result == (p.inUseEvents.v < p.capacity)
+
+//@ func (*lowMemoryEventPool).wakeupWaiters
+//@   ghost nb int = 0
+//@   setat "time.Sleep(p.wakeupInterval)" nb := 0
+//@   loop 1 iter-ensures waiters > 0 && eventsAvailable ==> nb == 1
+//@   loop 1 iter-ensures !(waiters > 0 && eventsAvailable) ==> nb == 0
+//@   callee Broadcast()
+//@     pure
+//@     set nb := nb + 1
+//@   callee Sleep(d)
+//@     pure
+
+// Low-memory pool admission: get returns only on the path where this call's own
+// increment of the in-use counter stayed within capacity; every other path gives
+// its unit back before waiting (units == 1 exactly at the return).  back releases
+// one unit and then wakes waiters.
+
+//@ func (*lowMemoryEventPool).get
+//@   option allow-panic yes
+//@   ghost units int = 0
+//@   ghost lastInc int = 0
+//@   ensures units == 1 && lastInc <= p.capacity
+//@   ensures result.Size == size
+//@   loop 1 invariant units == 0 && 0 <= index && index < 33
+//@   callee Int64.Inc() (r)
+//@     pure
+//@     set units := units + 1
+//@     set lastInc := ite(units == 0, r, lastInc)
+//@   callee Int64.Dec() (r)
+//@     pure
+//@     set units := ite(units == 1, 0, units)
+//@   callee poolIndex(s) (r)
+//@     pure
+//@     ensures 0 <= r && r <= 32
+//@   callee Get() (r)
+//@     pure
+//@     ensures typeis(r, "*github.com/ozontech/file.d/pipeline.Event") && !isnil(r)
+//@   callee Do(f)
+//@     pure
+//@   callee Lock()
+//@     pure
+//@   callee Unlock()
+//@     pure
+//@   callee Wait()
+//@     pure
+
+//@ func (*lowMemoryEventPool).back
+//@   ghost ndec int = 0
+//@   ghost nb int = 0
+//@   requires event != nil
+//@   ensures ndec == 1 && nb == 1
+//@   callee Int64.Dec() (r)
+//@     pure
+//@     requires nb == 0
+//@     set ndec := ndec + 1
+//@   callee Broadcast()
+//@     pure
+//@     requires ndec == 1
+//@     set nb := nb + 1
+//@   callee poolIndex(s) (r)
+//@     pure
+//@     ensures 0 <= r && r <= 32
+//@   callee reset()
+//@     pure
+//@   callee Put(x)
+//@     pure
+
+//@ func (*lowMemoryEventPool).inUse
+//@   pure
+//@   ensures result <= p.capacity
